@@ -227,7 +227,10 @@ def exit_job(job):
     hook = None
     if instant.startswith("hook:"):
         hook = [instant[5:]]
-    s = P.Session(args, ["x y", "z"], rows=12, cols=60, env={"C14_TAG": tag, "C14_DIR": base, "C14_CHILD": child}, hook_points=hook)
+    if instant == "after-suspend-resume":
+        args += ["--height", "60%"]  # the non-fullscreen renderer: Pause / Resume re-initialise the terminal modes
+    s = P.Session(args, ["x y", "z"], rows=12, cols=60, env={"C14_TAG": tag, "C14_DIR": base, "C14_CHILD": child}, hook_points=hook,
+                  job_control=(instant == "after-suspend-resume"))
     res = dict(evals=1, nt=1)
     d = {"exit": exit_how, "running": running, "child": child, "instant": instant}
     try:
@@ -262,6 +265,18 @@ def exit_job(job):
             t0 = time.time()
             while time.time() - t0 < 0.7:
                 s.pump(0.02)
+        elif instant == "after-suspend-resume":
+            # CTRL-Z: fzf restores the terminal and stops itself; SIGCONT: it takes the terminal back
+            s.keys(b"\x1a")
+            # the job-control shell resumes it at once; give the stop / continue cycle time to happen, then make sure it answers
+            t0 = time.time()
+            while time.time() - t0 < 0.6:
+                s.pump(0.02)
+            x, ok = s.wait_state(lambda x: True, 10.0)
+            if not ok:
+                res["violation"] = ("exit:not-answering-after-resume", d)
+                return res
+            s.settle_screen(0.05)
         waits_for_child = running in ("execute-silent", "transform", "execute") and child != "quick"
         if exit_how == "accept":
             s.keys(b"\r")
